@@ -1,6 +1,6 @@
 (* Text helpers for the BMS model and specification.  Text is a list of code points (Z).
    Definitions only (proofs about them are in Proofs/BMSProofs.v). *)
-From Coq Require Import ZArith QArith List Bool.
+From Coq Require Import ZArith QArith Qround List Bool.
 From RV Require Import Base.PyNum.
 Import ListNotations.
 Open Scope Z_scope.
